@@ -41,6 +41,8 @@ ASSUMPTIONS = [
     "(merge_handles asserts it; fork/apply_call preserve it)",
     "raw histories are built from real Handle objects by fork / apply_call / pickling, never from hand-made hashes",
     "workflow histories: tasks pass the handle through (`return h`), results contain exactly one handle; task edits are version changes",
+    "parallel writers: each task call receives its own fork of the shared state, so (docs/source/values.md) editing one writer must "
+    "re-execute that writer and the writers downstream of a merge with it, and no sibling",
     "external system semantics used by the end-to-end oracle: a task's write replaces the content at its depth and makes deeper content "
     "stale; the oracle only demands that after a run every depth holds what the requested chain says (never how many tasks ran)",
 ]
@@ -50,7 +52,10 @@ RULE = ("(a) raw histories of advance_handle (single parent, merged parents, for
         "model; (b) chain workflows t_n(...t_1(Handle)) run through the real Scheduler for up to 6 executions with task versions edited "
         "and reverted: tasks run, validity of the result, table sizes vs the Lean chain model; external-system oracle; every backend "
         "call is spied and replayed on the raw model/reference; (c) workflows with an explicit h.fork() inside a task and with parallel "
-        "branches + merge_handles, edited and reverted: spied backend calls vs raw model, every is_valid_handle answer vs reference. "
+        "writers on one handle state (2 writers + merge_handles + one more writer as in docs/source/values.md; 3 writers without merge), one "
+        "branch edited / reverted / re-run unchanged: spied backend calls vs raw model, every is_valid_handle answer vs reference, and for "
+        "the parallel writers the docs' rule: exactly the edited writer (and the writer after the merge) re-executes, every returned "
+        "handle is valid, an unchanged re-run executes nothing. "
         "distinct = distinct histories; non-trivial = at least 2 backend calls / 2 executions")
 LEVEL_TEXT = ("Full strength on the model of the repaired backend: for every history of advances (any parents, fork chains) and rollbacks "
               "the descendant search ends (run_total) and a state is valid exactly when the reference lineage model says so "
@@ -742,7 +747,7 @@ def run(ctx):
         sess = Session(ctx, "raw")
         kinds = script(sess)
         jobs.append(("raw", label, sess, kinds))
-    for _ in range(ctx.n(500, 6000)):
+    for _ in range(ctx.n(400, 6000)):
         hist = gen_raw(rng, 10 if ctx.tier == "quick" else rng.choice([6, 10, 14]))
         sess = Session(ctx, "raw")
         kinds = exec_raw(sess, hist)
